@@ -238,6 +238,7 @@ struct Args {
     index: u64,
     verbose: bool,
     file: Option<String>,
+    emit_sub: Option<String>,
 }
 
 fn parse_args(args: &[String]) -> Args {
@@ -251,6 +252,7 @@ fn parse_args(args: &[String]) -> Args {
         index: 0,
         verbose: false,
         file: None,
+        emit_sub: None,
     };
     let mut i = 0;
     while i < args.len() {
@@ -268,6 +270,7 @@ fn parse_args(args: &[String]) -> Args {
             "--count" => a.count = next(&mut i).parse().unwrap_or(1),
             "--index" => a.index = next(&mut i).parse().unwrap_or(0),
             "--budget-ms" => a.budget_ms = next(&mut i).parse().unwrap_or(0),
+            "--sub" => a.emit_sub = Some(next(&mut i)),
             "--thorough" => a.thorough = true,
             "--verbose" => a.verbose = true,
             s if !s.starts_with("--") && a.file.is_none() => a.file = Some(s.to_string()),
@@ -359,13 +362,21 @@ fn enumerate_c11(a: &Args, index: u64, out: &mut impl Write) -> Option<Replay> {
         faults.push(fs);
     }
     let mut attempts = 0u64;
+    let mut nviol = 0u64;
+    let mut classes = std::collections::BTreeSet::new();
     let mut distinct = std::collections::BTreeSet::new();
     for fs in faults {
         let mut ops = prefix.clone();
         ops.push(Op::Corrupt { src: 0, dst: 1, enc, faults: fs.clone() });
         ops.extend(cont.iter().cloned());
-        let r = run_ops(&ops, 2, run_seed, false, None);
         attempts += 1;
+        if let Some(rep) = attempt_header(a, out, index, &format!("{attempts}"), run_seed, &ops) {
+            return Some(rep);
+        }
+        if a.emit_sub.is_some() {
+            continue;
+        }
+        let r = run_ops(&ops, 2, run_seed, false, None);
         agg.absorb(&r);
         if r.probes.get("corrupt_rejected").is_some() || r.probes.get("corrupt_accepted").is_some() {
             distinct.insert(r.history_hash.clone());
@@ -373,19 +384,64 @@ fn enumerate_c11(a: &Args, index: u64, out: &mut impl Write) -> Option<Replay> {
         if r.violation.is_some() {
             let sub = format!("{}", attempts);
             let rep = replay_of(a, index, Some(sub.clone()), run_seed, 2, &ops, &r);
-            agg.violation = r.violation.clone();
-            agg.sub = Some(sub);
-            agg.probes.insert("enum_attempts".into(), attempts);
-            agg.probes.insert("enum_distinct_nontrivial".into(), distinct.len() as u64);
-            emit(out, "RUN", &agg);
-            return Some(rep);
+            if agg.violation.is_none() {
+                agg.violation = r.violation.clone();
+                agg.sub = Some(sub);
+            }
+            nviol += 1;
+            let class = violation_class(&rep);
+            if classes.insert(class) && classes.len() <= 12 {
+                emit(out, "REPLAY", &rep);
+            }
         }
     }
+    agg.probes.insert("enum_violating_attempts".into(), nviol);
     agg.probes.insert("enum_attempts".into(), attempts);
     agg.probes.insert("enum_distinct_nontrivial".into(), distinct.len() as u64);
     agg.probes.insert("enum_stream_units".into(), n as u64);
     emit(out, "RUN", &agg);
     None
+}
+
+/// Announce an enumeration attempt (so that a dying worker identifies it); in emit mode return
+/// the replay of the requested attempt instead of executing it.
+fn attempt_header(a: &Args, out: &mut impl Write, index: u64, sub: &str, run_seed: u64, ops: &[Op]) -> Option<Replay> {
+    if let Some(want) = &a.emit_sub {
+        if want == sub {
+            return Some(Replay {
+                engine: "worldsim".into(),
+                profile: a.profile.clone(),
+                seed: a.seed,
+                index,
+                sub: Some(sub.to_string()),
+                run_seed,
+                nslots: 2,
+                ops: ops.to_vec(),
+                expect: None,
+                log_hash: None,
+            });
+        }
+        return None;
+    }
+    writeln!(out, "A {index} {sub}").unwrap();
+    out.flush().unwrap();
+    None
+}
+
+/// Coarse class of a violation, used to report each kind once per base history.
+fn violation_class(rep: &Replay) -> String {
+    let mut site = String::new();
+    for op in &rep.ops {
+        match op {
+            Op::FaultAt { kind, inner, as_error, .. } => site = format!("{}{}@{}", kind, if *as_error { "-err" } else { "" }, inner.name()),
+            Op::Corrupt { enc, faults, .. } => {
+                site = format!("enc{}:{}", enc, faults.iter().map(|f| f.kind.as_str()).collect::<Vec<_>>().join("+"))
+            }
+            _ => {}
+        }
+    }
+    let v = rep.expect.as_ref().unwrap();
+    format!("{}|{}|{}", v.property, v.oracle, site)
 }
 
 const C17_TARGETS: usize = 14;
@@ -451,6 +507,8 @@ fn enumerate_c17(a: &Args, index: u64, out: &mut impl Write) -> Option<Replay> {
     let counts = dry.last_counts;
     let mut attempts = 0u64;
     let mut fired = 0u64;
+    let mut nviol = 0u64;
+    let mut classes = std::collections::BTreeSet::new();
     let mut distinct = std::collections::BTreeSet::new();
     for kind in 0..fault::NKINDS {
         let kname = fault::KIND_NAMES[kind];
@@ -462,26 +520,36 @@ fn enumerate_c17(a: &Args, index: u64, out: &mut impl Write) -> Option<Replay> {
                 ops.push(Op::FaultAt { kind: kname.into(), k: k as u32, as_error: *as_error, inner: Box::new(target.clone()) });
                 ops.extend(cont0.iter().cloned());
                 ops.extend(cont1.iter().cloned());
-                let r = run_ops(&ops, 2, run_seed, false, None);
                 attempts += 1;
+                let sub = format!("{kname}{}#{k}", if *as_error { "-err" } else { "" });
+                if let Some(rep) = attempt_header(a, out, index, &sub, run_seed, &ops) {
+                    return Some(rep);
+                }
+                if a.emit_sub.is_some() {
+                    continue;
+                }
+                let r = run_ops(&ops, 2, run_seed, false, None);
                 agg.absorb(&r);
                 if r.probes.get("fault_fired").is_some() {
                     fired += 1;
                     distinct.insert(r.history_hash.clone());
                 }
                 if r.violation.is_some() {
-                    let sub = format!("{kname}{}#{k}", if *as_error { "-err" } else { "" });
                     let rep = replay_of(a, index, Some(sub.clone()), run_seed, 2, &ops, &r);
-                    agg.violation = r.violation.clone();
-                    agg.sub = Some(sub);
-                    agg.probes.insert("enum_attempts".into(), attempts);
-                    agg.probes.insert("enum_distinct_nontrivial".into(), distinct.len() as u64);
-                    emit(out, "RUN", &agg);
-                    return Some(rep);
+                    if agg.violation.is_none() {
+                        agg.violation = r.violation.clone();
+                        agg.sub = Some(sub);
+                    }
+                    nviol += 1;
+                    let class = violation_class(&rep);
+                    if classes.insert(class) && classes.len() <= 12 {
+                        emit(out, "REPLAY", &rep);
+                    }
                 }
             }
         }
     }
+    agg.probes.insert("enum_violating_attempts".into(), nviol);
     agg.probes.insert("enum_attempts".into(), attempts);
     agg.probes.insert("enum_fired".into(), fired);
     agg.probes.insert("enum_distinct_nontrivial".into(), distinct.len() as u64);
